@@ -129,9 +129,9 @@ func runC11Direct(r *simkit.Run, burst bool) {
 		mu.Unlock()
 	}, func(error) {})
 	type op struct {
-		inst   int
-		to     st
-		okIf   bool
+		inst int
+		to   st
+		okIf bool
 	}
 	seqs := make([][]op, ntasks)
 	for t := range seqs {
